@@ -289,8 +289,10 @@ for _K_, _V_ in dataclasses.asdict(__D__).items():
     ad = core.need(core.find_class(py, "SklearnEKFAdapter"), "python.SklearnEKFAdapter")
     aex = core.need(core.find_func(ad, "export_python"), "SklearnEKFAdapter.export_python")
     call = next((c for c in ast.walk(aex) if isinstance(c, ast.Call) and ast.unparse(c.func) == "compile_ekf"), None)
-    args = [ast.unparse(a) for a in call.args] + [f"{k.arg}={ast.unparse(k.value)}" for k in call.keywords] if call is not None else []
-    okae = args == ["self.symbolic_model", "self.process_noise", "self.sensor_models", "self.sensor_noises", "self.calibration_map", "config=self.config"]
+    bound = core.bind_call(call, core.find_func(py, "compile_ekf")) if call is not None else None
+    args = [f"{k}={ast.unparse(v)}" for k, v in (bound or {}).items()]
+    okae = dict((k, ast.unparse(v)) for k, v in (bound or {}).items()) == {k: f"self.{k}" for k in ("symbolic_model", "process_noise", "sensor_models", "sensor_noises",
+                                                                                                       "calibration_map", "config")}
     ctx.oblige("FIT", "py/formak/python.py:SklearnEKFAdapter.export_python", f"compile_ekf({', '.join(args)})", okae, file="py/formak/python.py",
                func="SklearnEKFAdapter.export_python", construct="export args", msg="the exported filter is not compiled from exactly the estimator's six parameters")
     c17.set_params_rule(ctx, ad, py)
